@@ -165,7 +165,8 @@ def run(ctx):
     ctx.assume('filter permutation re-associates sums: compared with 1e-9/cond on parameters and an objective-scaled tolerance on chi^2',
                'model permutation and history: bit-identical (NaN-aware)', 'tie order is free: comparison is per model name')
     ctx.require_events('Fitter.fit:post', 'pair:filter-permutation', 'pair:model-permutation', 'pair:flux-scaling', 'pair:history',
-                       'history:same-flags-other-errors', 'history:two-live-fitters', 'pair:filter-permutation:remove_resolved')
+                       'history:same-flags-other-errors', 'history:two-live-fitters', 'pair:filter-permutation:remove_resolved',
+                       'history:several-live-fitters-on-one-package')
     ctx.require_regimes('mode:2d', 'mode:3d', 'history:remove_resolved-band-dependent', 'history:v2-memmap')
     n_sets = 1 if ctx.quick else 4
     for iset in range(n_sets):
@@ -267,6 +268,23 @@ def run(ctx):
             ctx.regime('history:v2-memmap')
             history_block(ctx, rng, st_v2, sources, mode, iset, {}, other=other, tag='v2-memmap')
             history_block(ctx, rng, st_v2, sources, mode, iset, dict(use_memmap=False), other=None, tag='v2-nomemmap')
+            # several fitters alive at once on the memory-mapped cube package, each with its own filter order: constructing and
+            # using the others is part of every fitter's history, and each must keep answering as it did when it was alone
+            live = []
+            v, f, e, cond, wsum = sources[0]
+            for p in [list(range(nb))] + [list(rng.permutation(nb)) for _ in range(3)]:
+                fp = gen.make_fitter([st['bn'][i] for i in p], st['theta'][p], d_v2, st['law'], (-5.0, 40.0), st['dr'])
+                live.append((p, fp, probe.canon_info(fp.fit(gen.build_source('s', v[p], f[p], e[p])), with_source=False)))
+            for (p, fp, first) in live[::-1] + live:
+                again = probe.canon_info(fp.fit(gen.build_source('s', v[p], f[p], e[p])), with_source=False)
+                diffs = probe.same_canon(first, again)
+                ctx.event('history:several-live-fitters-on-one-package')
+                if diffs:
+                    ctx.violation('history-dependent-fit:other-live-fitter', 'a fitter returned a different result for a source after other fitters were constructed and used on the same package',
+                                  dict(mode=mode, filter_order=p, differs=diffs, package='v2-memmap'))
+                    break
+                ctx.case(('live', iset, mode, tuple(p), ctx.shard, ctx.evaluations), nontrivial=True)
+            del live
             ctx.rmdir(d_v2)
             ctx.rmdir(st_o['dir'])
             if mode == '3d':
